@@ -18,6 +18,7 @@ import (
 	"sync"
 	"time"
 
+	"github.com/metrico/qryn/reader/prof"
 	"github.com/metrico/qryn/zz_verif/simrt"
 	otlpCommon "go.opentelemetry.io/proto/otlp/common/v1"
 	otlpTrace "go.opentelemetry.io/proto/otlp/trace/v1"
@@ -44,6 +45,10 @@ type Result struct {
 	CtrlBytes    bool                `json:"ctrl_bytes,omitempty"` // generated lines carry control bytes
 	Complexity   int64               `json:"complexity,omitempty"` // value served for the TraceQL complexity estimate
 	Explicit     []Row               `json:"-"`                    // rows given by the harness at run time (C09)
+	// ProfShape selects what the Pyroscope tables return: 0 a well-formed profile tree / type ids; 1 a self-loop in the
+	// tree; 2 a cycle across levels; 3 the same node twice under one parent; 4 nodes whose function is unknown;
+	// 5 negative self/total; 6 sample_type_unit with one element; 7 type_id without its colons; 8 empty tree
+	ProfShape int `json:"prof_shape,omitempty"`
 }
 
 // Row is one served row in harness terms.
@@ -217,6 +222,10 @@ func Projection(q string) []string {
 		}
 	}
 	_ = start
+	if cur >= 0 {
+		// a top-level SELECT without FROM: "SELECT (select ...) as a, (select ...) as b"
+		sel = append(sel, span{cur, len(q)})
+	}
 	if len(sel) == 0 {
 		return nil
 	}
@@ -501,6 +510,11 @@ func ValueFor(col, sqlText string, row Row, idx int, ncols int, res *Result) dri
 			return string(b)
 		}
 	}
+	if strings.Contains(sqlText, "profiles") {
+		if v, ok := profValue(c, row, idx, ncols, res); ok {
+			return v
+		}
+	}
 	switch c {
 	case "fingerprint", "fp":
 		return row.Fp
@@ -585,4 +599,110 @@ func (r *rows) Next(dest []driver.Value) error {
 	r.pos++
 	r.st.Served = r.pos
 	return nil
+}
+
+// ---- Pyroscope tables: typed values (tuples and arrays arrive as []any / [][]any from clickhouse-go)
+
+func profValue(c string, row Row, idx, ncols int, res *Result) (driver.Value, bool) {
+	switch c {
+	case "type_id":
+		if res.ProfShape == 7 {
+			return "process_cpu", true
+		}
+		return "process_cpu:cpu:nanoseconds", true
+	case "sample_type_unit", "__sample_types_units":
+		if res.ProfShape == 6 {
+			return []any{"cpu"}, true
+		}
+		return []any{[]string{"cpu", "wall", "alloc_objects"}[idx%3], "nanoseconds"}, true
+	case "tags":
+		return [][]any{{"service_name", "x"}, {"a", fmt.Sprintf("v%d", row.Series)}, {"quote", "q\"\\\x7f"}}, true
+	case "labels":
+		var kv [][]any
+		for _, k := range sortedKeys(row.Labels) {
+			kv = append(kv, []any{k, row.Labels[k]})
+		}
+		return kv, true
+	case "timestamp_ms":
+		return row.TsNs / 1000000, true
+	case "_tree":
+		return profTree(res), true
+	case "payload":
+		return profPayload(res, idx), true
+	case "_functions":
+		fns := [][]any{{uint64(1), "main"}, {uint64(2), "a \"quoted\" fn"}, {uint64(3), "leaf\x00"}}
+		if res.ProfShape == 4 {
+			fns = fns[:1]
+		}
+		return fns, true
+	}
+	return nil, false
+}
+
+func profTree(res *Result) [][]any {
+	n := func(parent, fn, node uint64, self, total int64) []any { return []any{parent, fn, node, self, total} }
+	tree := [][]any{n(0, 1, 100, 0, 10), n(100, 2, 200, 3, 10), n(200, 3, 300, 7, 7), n(100, 3, 400, 1, 1)}
+	switch res.ProfShape {
+	case 1:
+		tree = append(tree, n(300, 3, 300, 1, 1))
+	case 2:
+		tree = append(tree, n(300, 1, 100, 1, 1), n(200, 1, 100, 1, 1))
+	case 3:
+		tree = append(tree, n(100, 2, 200, 5, 5), n(100, 2, 200, 6, 6))
+	case 5:
+		tree = append(tree, n(100, 2, 500, -5, -9))
+	case 8:
+		return [][]any{}
+	}
+	for i := 0; i < res.Series; i++ {
+		tree = append(tree, n(300, 2, uint64(1000+i), int64(i), int64(i)))
+	}
+	return tree
+}
+
+func sortedKeys(m map[string]string) []string {
+	ks := make([]string, 0, len(m))
+	for k := range m {
+		ks = append(ks, k)
+	}
+	sort.Strings(ks)
+	return ks
+}
+
+// profPayload is a stored pprof profile (SelectMergeProfile merges them).
+func profPayload(res *Result, idx int) []byte {
+	p := &prof.Profile{
+		StringTable: []string{"", "cpu", "nanoseconds", "main", "leaf", "file.go"},
+		SampleType:  []*prof.ValueType{{Type: 1, Unit: 2}},
+		PeriodType:  &prof.ValueType{Type: 1, Unit: 2},
+		Period:      10000000,
+		Mapping:     []*prof.Mapping{{Id: 1, Filename: 5}},
+		Function:    []*prof.Function{{Id: 1, Name: 3, Filename: 5}, {Id: 2, Name: 4, Filename: 5}},
+		Location: []*prof.Location{{Id: 1, MappingId: 1, Line: []*prof.Line{{FunctionId: 1, Line: 10}}},
+			{Id: 2, MappingId: 1, Line: []*prof.Line{{FunctionId: 2, Line: 20}}}},
+		Sample:    []*prof.Sample{{LocationId: []uint64{2, 1}, Value: []int64{int64(idx + 1)}}, {LocationId: []uint64{1}, Value: []int64{3}}},
+		TimeNanos: 946684800000000000 + int64(idx),
+	}
+	switch res.ProfShape {
+	case 1, 2:
+		// references outside the tables
+		p.Sample = append(p.Sample, &prof.Sample{LocationId: []uint64{99}, Value: []int64{1}})
+		p.Location = append(p.Location, &prof.Location{Id: 3, MappingId: 7, Line: []*prof.Line{{FunctionId: 42}}})
+	case 4:
+		p.Function[1].Name = 77
+	case 5:
+		p.SampleType[0].Type = 50
+		p.Sample[0].Value = []int64{-1, 2, 3}
+	case 6:
+		p.PeriodType = nil
+	case 7:
+		return []byte("\x0a\xff\xff\xff\xff\x0fgarbage that is not a profile")
+	case 8:
+		return []byte{}
+	}
+	b, err := proto.Marshal(p)
+	if err != nil {
+		return nil
+	}
+	return b
 }
